@@ -7,6 +7,7 @@ package main
 import (
 	"fmt"
 	"go/token"
+	"math/big"
 	"go/types"
 	"sort"
 	"strings"
@@ -66,6 +67,7 @@ type Unit struct {
 	Fn       *ssa.Function
 	Contract *Contract
 	rankUsed bool
+	factSeen map[int]bool
 	zeroBases   map[string]*MemNode
 	substrs     []substrRec
 	b2s         []b2sRec
@@ -90,6 +92,13 @@ func (u *Unit) addFact(t *Term) {
 	if t.IsTrue() {
 		return
 	}
+	if u.factSeen == nil {
+		u.factSeen = map[int]bool{}
+	}
+	if u.factSeen[t.id] {
+		return
+	}
+	u.factSeen[t.id] = true
 	u.facts = append(u.facts, t)
 }
 
@@ -298,10 +307,17 @@ func (u *Unit) validFacts(t types.Type, slots []*Term, objBound *Term) []*Term {
 	i := 0
 	var rec func(t types.Type)
 	lim := tb.BVU(64, 1<<40)
+	markLow := objBound.Op == "bv" && objBound.Val.Cmp(big.NewInt(freshBase)) == 0
+	mark := func(t *Term) {
+		if markLow {
+			tb.MarkLow(t)
+		}
+	}
 	rec = func(t types.Type) {
 		switch ut := t.Underlying().(type) {
 		case *types.Basic:
 			if ut.Kind() == types.UnsafePointer {
+				mark(slots[i])
 				out = append(out, tb.Ult(slots[i], objBound), tb.Ult(slots[i+1], lim))
 				i += 2
 			} else if ut.Kind() == types.Complex128 || ut.Kind() == types.Complex64 {
@@ -310,20 +326,25 @@ func (u *Unit) validFacts(t types.Type, slots []*Term, objBound *Term) []*Term {
 				i++
 			}
 		case *types.Pointer:
+			mark(slots[i])
 			out = append(out, tb.Ult(slots[i], objBound), tb.Ult(slots[i+1], lim))
 			i += 2
 		case *types.Slice:
+			mark(slots[i])
 			out = append(out, tb.Ult(slots[i], objBound), tb.Ult(slots[i+1], lim),
 				tb.Ule(slots[i+2], slots[i+3]), tb.Ule(slots[i+3], lim),
 				tb.Implies(tb.Eq(slots[i], tb.BV(32, 0)), tb.Eq(slots[i+3], tb.BV(64, 0))))
 			i += 4
 		case *types.Map, *types.Chan:
+			mark(slots[i])
 			out = append(out, tb.Ult(slots[i], objBound))
 			i++
 		case *types.Signature:
+			mark(slots[i+1])
 			out = append(out, tb.Ult(slots[i+1], objBound))
 			i += 2
 		case *types.Interface:
+			mark(slots[i+1])
 			out = append(out, tb.Ult(slots[i+1], objBound), tb.Ult(slots[i+2], lim))
 			i += 3
 		case *types.Struct:
